@@ -93,15 +93,21 @@ def worker():
                     mod.delete_stimuli()
                     stim2 = np.zeros((nsteps, n))
 
-                    def loss(a):
-                        ds = mod.select(nodes=rows).data_stimulate(a * jnp.asarray(base), None)
+                    # the gradient with respect to EVERY sample of a data-fed stimulus, some of which are exactly zero
+                    # (the off-period of a step current): d loss / d sample does not vanish where the sample does
+                    theta0 = 0.7 * base
+                    theta0[1::3] = 0.0
+
+                    def loss(x):
+                        ds = mod.select(nodes=rows).data_stimulate(x, None)
                         return jnp.sum(jx.integrate(mod, data_stimuli=ds, **{**kw, "t_max": None}) ** 2)
-                    theta = jnp.asarray(0.7)
+                    theta = jnp.asarray(theta0)
                     g = np.atleast_1d(np.asarray(jax.grad(loss)(theta)))
 
-                    def oracle(h):
+                    def oracle_t(t, h):
                         s2 = stim2.astype(complex)
-                        s2[:, rows[0]] = (0.7 + h) * base
+                        s2[:, rows[0]] = theta0
+                        s2[t, rows[0]] += h
                         return np.sum(ev.cx_simulate(m, par, s2, dt, nsteps, solver) ** 2)
                     groups = [rows]
                 else:
@@ -119,7 +125,10 @@ def worker():
                         p2["r"][rows] = complex(theta) + h
                         return np.sum(ev.cx_simulate(m, p2, stim, dt, nsteps, solver) ** 2)
                     groups = [rows]
-                want = np.asarray([np.imag(oracle(1e-30j)) / 1e-30])
+                if key == "stim_amp":
+                    want = np.asarray([np.imag(oracle_t(t, 1e-30j)) / 1e-30 for t in range(nsteps)])
+                else:
+                    want = np.asarray([np.imag(oracle(1e-30j)) / 1e-30])
             else:
                 view = {"comp": lambda: mod.comp("all") if len(mod.nodes) else mod, "branch": lambda: mod.branch("all"),
                         "module": lambda: mod,
